@@ -78,7 +78,7 @@ func backendsFor(spec *HarnessSpec, queryMS int) []smt.Backend {
 }
 
 func limitsFor(spec *HarnessSpec, tier string) sx.Limits {
-	l := sx.Limits{MaxPaths: 20000, MaxSteps: 2000000, MaxSeconds: 150, QueryMS: 20000}
+	l := sx.Limits{MaxPaths: 60000, MaxSteps: 2000000, MaxSeconds: 420, QueryMS: 30000}
 	if tier == "thorough" {
 		l = sx.Limits{MaxPaths: 400000, MaxSteps: 5000000, MaxSeconds: 900, QueryMS: 60000}
 	}
